@@ -12,14 +12,16 @@ def run(tier):
     for (n, caps), r in sorted(sims.items()):
         chk.add_tlc(f'Store simulate ncomp={n} {caps}', r)
     suite = B.write_suite(os.path.join(wd, 'suite.txt'), bs)
-    evs = B.run_modes(exe, ks, ['layout']) + B.run_modes(exe, ks, ['replay'], suite=suite)
+    evs = B.run_modes(exe, ks, ['layout']) + B.run_modes(exe, ks, ['replay'], suite=suite) + B.run_modes(exe, ks, ['mutators'], n=300 if tier == 'quick' else 20000)
     res, result = B.validate(evs, qs, wd, 'c17')
-    B.report(chk, 'Trace_Battery(layout facts + mutator/accessor histories)', evs, res, result, {'layout', 'replay'})
+    B.report(chk, 'Trace_Battery(layout facts + mutator/accessor histories)', evs, res, result, {'layout', 'replay', 'mutator'})
     lay = [e for e in evs if e['e'] == 'Layout']
     rp = [e for e in evs if e['e'] == 'Replay']
     chk.cov['traces_validated_against_impl'] += sum(e['behaviours'] for e in rp)
     chk.layer('A.layout', instantiations=len(lay), quantity_types=len({e['type'] for e in lay}),
               note='sizeof = NComp*sizeof(num), alignof, trivially copyable, standard layout, memory image = component sequence, array stride, Zero() = +0')
+    mu = [e for e in evs if e['e'] == 'Mutator']
+    chk.layer('B.mutators', events=len(mu), value_sets=sum(e['n'] for e in mu), note='random full-precision values over the whole exponent range: construction, SetValue and MutableValue must store them bit for bit')
     chk.layer('A.histories', behaviours=len(bs), replays=sum(e['behaviours'] for e in rp), steps=sum(e['steps'] for e in rp),
               note='SetValue / MutableValue / Value / Zero / copies in TLC-generated histories; after every step Value() and the memory image must equal the specification state')
     chk.count(evaluations=len(lay) + sum(e['steps'] for e in rp), distinct=len(lay) + len(bs))
